@@ -5,7 +5,7 @@
    Composition over the document walk (Tools/DiffDocSound.v): for ANY two documents and ANY fuel, if the analysis
    returns a report, the report holds a Breaking entry — and `swagger diff` then exits non-zero — whenever an endpoint
    is removed, a parameter is added as required or becomes required, a primitive parameter (number, string) rejects a
-   value it accepted, a response code or a response header is removed, a request body gains a required property (the C13_doc_ theorems
+   value it accepted, a response code or a response header is removed, a request body gains a required property, a response body loses a property (the C13_doc_ theorems
    below). What remains exercised only: edits deeper inside a body or response schema (nested properties, items, allOf,
    references), which the recursive compare_schema walks. *)
 From GS Require Import Base.Str Gen.GenDiffTables Tools.DiffTypes Tools.DiffSpec Tools.DiffModel Tools.DiffModelLemmas Tools.DiffSound Tools.DiffParams Tools.DiffReport Tools.DiffIdentity Tools.DiffDocSound.
@@ -231,6 +231,17 @@ Theorem C13_doc_body_required_property_added : forall fuel a b ds, analyse fuel 
   reports_breaking ds.
 Proof. exact doc_body_required_property_added. Qed.
 Print Assumptions C13_doc_body_required_property_added.
+
+(* the response side: a response body — inline object schemas without allOf whose own keywords agree — loses a property *)
+Theorem C13_doc_response_property_removed : forall fuel a b ds, analyse fuel a b = Ok ds ->
+  forall k pit1 pit2 op1 op2, In (k, (pit2, op2)) (url_methods b) -> find_um k (url_methods a) = Some (pit1, op1) ->
+  forall c r1 r2 x1 x2 name sc1, In (c, r2) (o_responses op2) -> assocZ c (o_responses op1) = Some r1 ->
+  r_schema r1 = Some x1 -> r_schema r2 = Some x2 ->
+  is_ref x1 = false -> is_ref x2 = false -> sc_allof x1 = [] -> sc_allof x2 = [] ->
+  compare_props x1 x2 = Ok [] -> is_array_type (sc_typ x1) = false ->
+  In (name, sc1) (sc_props x1) -> has_key name (sc_props x2) = false -> reports_breaking ds.
+Proof. exact doc_response_property_removed. Qed.
+Print Assumptions C13_doc_response_property_removed.
 
 Definition doc_body (props : list (str * schema)) (req : list str) : swagger :=
   {| sw_consumes := None; sw_produces := None; sw_schemes := None; sw_host := []; sw_basepath := []; sw_info_desc := [];
